@@ -39,7 +39,7 @@ def ip_text(n):
 
 # ---------------------------------------------------------------------- input-side replay (mirrors Spec.C09.tor)
 HOSTS_PLAIN = ['example.com', 'www.torproject.org', '93.184.216.34', 'abcdefghijklmnop.onion', 'exit.example.com']
-HOSTS_EXIT = ['node1.exit', 'www.example.com.AAAABBBBCCCCDDDDEEEEFFFF0000111122223333.exit']
+HOSTS_EXIT = ['node1.exit', 'www.example.com.AAAABBBBCCCCDDDDEEEEFFFF0000111122223333.exit', 'Node2.EXIT', 'relay.Exit']
 HOSTS_EXIT_INSIDE = ['www.exitpoll.com', 'my.exit.example.net']
 IPS = [0x7f000001, 0x7f000002, 0x0a000007]
 NEXT_OK = {'LAUNCHED': ['EXTENDED', 'BUILT', 'FAILED', 'CLOSED'], 'EXTENDED': ['EXTENDED', 'BUILT', 'FAILED', 'CLOSED'],
@@ -114,7 +114,7 @@ class Shadow(object):
                 del self.alive[cid]
         elif k == 'stream':
             _, sid, st, cid, host, port, src, answers = op
-            if self.first_sight(op) and self.inst is not None and not host.endswith('.exit'):
+            if self.first_sight(op) and self.inst is not None and not host.lower().endswith('.exit'):
                 a = None
                 if isinstance(self.inst, tuple):
                     j = self.inst[1]
@@ -168,32 +168,24 @@ def heap_order(subs):
 def analyse(case, obs):
     """facts about a history used by kind()/nontrivial()/the finding predicates"""
     sh = Shadow()
-    facts = {'decisions': 0, 'f1': False, 'f2': False, 'f3': False, 'connects': 0, 'matched': 0, 'unrelated': 0,
+    facts = {'decisions': 0, 'gone': 0, 'connects': 0, 'matched': 0, 'unrelated': 0,
              'kinds': set(), 'later': 0}
     started = set()
     conn_oid = {}
     regs = {}
-    f1_sids = []
     for op, es in zip(case['ops'], obs['ops'] if obs else [[]] * len(case['ops'])):
         facts['kinds'].add(op[0])
         if sh.first_sight(op) and sh.inst is not None:
             host, src = op[4], op[6]
-            if '.exit' in host and not host.endswith('.exit'):
-                facts['f2'] = True
-            if not host.endswith('.exit'):
+            if not host.lower().endswith('.exit'):
                 facts['decisions'] += 1
-                if sh.inst == 'prio':
-                    live = [s for s in sh.subs if s[2]]
-                    if heap_order(sh.subs) != sh.prio_order():
-                        facts['f3'] = True
                 if sh.inst == 'circ':
                     key = (src[1], src[2]) if src is not None and src[0] == 'ip' else None
                     if key in regs:
                         oid, kk = regs.pop(key)
                         facts['matched'] += 1
                         if sh.objs[oid][1] != 'BUILT':
-                            facts['f1'] = True
-                            f1_sids.append((op[1], kk))
+                            facts['gone'] += 1
                     else:
                         facts['unrelated'] += 1
         if op[0] == 'connect' and sh.legal(op):
@@ -208,13 +200,6 @@ def analyse(case, obs):
         before = sh.npend
         sh.apply(op)
         facts['later'] += sh.npend - before
-    # the known misbehaviour of F1, nothing else: that stream is handed to Tor (ATTACHSTREAM sid 0), connect() fails
-    if facts['f1'] and obs:
-        wrote = [bytes.fromhex(e[1]) for es in obs['ops'] for e in es if e[0] == 'wrote']
-        okdone = set(e[1] for es in obs['ops'] for e in es if e[0] == 'conndone' and e[2] == 0)
-        for sid, kk in f1_sids:
-            if wrote.count(b'ATTACHSTREAM %d 0\r\n' % sid) < 1 or kk in okdone:
-                facts['f1'] = False
     return facts
 
 
@@ -227,9 +212,31 @@ class P(core.Prop):
     thorough_n = 24000
     shard = 300
     design_ref = '5/C09'
-    rule = ''
-    trusted = []
-    assumptions = []
+    rule = ('histories over <= 5 circuit ids (legal lifecycles LAUNCHED/EXTENDED/BUILT then CLOSED|FAILED, ids reused after '
+            'closing), <= 6 stream ids (NEW/NEWRESOLVE first, later statuses, ids reused; a few first seen mid-life), targets: '
+            'names, IP, .onion, .exit addresses (also upper case), names merely containing ".exit"; sources: none, (Tor_internal), 3 local IPs x ports. '
+            'Scenarios: custom attacher (answers: circuit object in any state incl. stale, None, DO_NOT_ATTACH, non-circuit, '
+            'raises, unknown circuit; as plain value, fired Deferred, coroutine, pending Deferred / awaiting coroutine fired '
+            'later), second/same attacher, removal; PriorityAttacher with 0-4 sub-attachers added/removed at random; 1-4 concurrent '
+            'via-circuit connections as threads (connect, local address, SOCKS reply, own stream early/late/twice) randomly '
+            'interleaved with circuit events, unrelated streams (near-miss addresses), Tor replies (some refusing); a custom '
+            'attacher with one refused connect(). Every history ends with a flush. thorough adds the product answer kind x '
+            'circuit state x mode x Deferred/coroutine x NEW/NEWRESOLVE x idle/busy channel. '
+            'non-trivial = at least one first-seen attachable stream while an attacher is installed and >= 4 operations; '
+            'distinct = distinct history')
+    trusted = ["the scripted Tor: real TorControlProtocol on a StringTransport, 650 CIRC/STREAM lines printed by the harness "
+               "(control-spec 4.1.1/4.1.2), replies 250 OK / 552",
+               "attacher test doubles (IStreamAttacher implementers with scripted answers), a fake IReactorCore, a fake SOCKS "
+               "proxy endpoint under a real TorSocksEndpoint/TorClientEndpoint/TorCircuitEndpoint, StringTransport with a "
+               "chosen local address",
+               "TorState._attacher_error is replaced per instance by a recorder (as the repo's own tests do); "
+               "circuit._get_circuit_attacher.attacher (module level) is reset per case; TorState.circuit_factory is wrapped "
+               "to number Circuit objects"]
+    assumptions = ['the local address of the SOCKS connection is known before Tor reports the stream (TCP/Tor ordering)',
+                   'Tor prints SOURCE_ADDR as dotted-quad:port (IPv4 only is generated)',
+                   'set_attacher is not called after stream_via/connect() (documented misuse), at most one connect() '
+                   'is attempted while a custom attacher is installed, local addresses of different connections differ',
+                   'circuit and stream ids below 9000; a sub-attacher has at most one PriorityAttacher entry at a time']
 
     # ------------------------------------------------------------------ implementation
     def run_impl(self, case):
@@ -537,9 +544,9 @@ class P(core.Prop):
         if st in ('NEW', 'NEWRESOLVE', 'CONTROLLER_WAIT'):
             cid = 0
         r = rng.random()
-        if r < 0.82:
+        if r < 0.76:
             host = rng.choice(HOSTS_PLAIN)
-        elif r < 0.94 or not finding_ok:
+        elif r < 0.88:
             host = rng.choice(HOSTS_EXIT)
         else:
             host = rng.choice(HOSTS_EXIT_INSIDE)
@@ -665,7 +672,7 @@ class P(core.Prop):
 
     def _history(self, rng, tier):
         scenario = rng.choice(['custom', 'custom', 'custom', 'prio', 'prio', 'via', 'via', 'via', 'via', 'mixed'])
-        finding_ok = rng.random() < 0.08          # inputs of the open findings are kept rare
+        finding_ok = rng.random() < 0.35          # streams of via-circuit connections whose circuit has closed
         if scenario == 'via' and rng.random() < 0.75:
             return self._via_plan(rng, tier, finding_ok)
         sh = Shadow()
@@ -674,7 +681,7 @@ class P(core.Prop):
         next_k = [0]
         regs = []          # (ip, port, oid) the generator believes registered
         used_src = []
-        sorted_prio = rng.random() < 0.75 or not finding_ok
+        prio_mode = rng.choice(['sorted', 'dec2', 'random', 'random'])
         last_prio = [0]
 
         def push(op):
@@ -691,6 +698,10 @@ class P(core.Prop):
             push(['setatt', ['custom', rng.randrange(0, 3)]])
         elif scenario == 'prio':
             push(['setatt', 'prio'])
+            if prio_mode == 'random':
+                # several entries straight away, priorities in any order (the heap array is then not sorted)
+                for j in rng.sample(range(4), rng.randrange(2, 5)):
+                    push(['prioadd', j, rng.choice([0, 1, 2, 3, 5, 9])])
         for _ in range(n):
             r = rng.random()
             if scenario == 'via':
@@ -735,17 +746,28 @@ class P(core.Prop):
                     push(['fire', rng.randrange(0, max(1, sh.npend + 1))])
                 elif r < 0.84:
                     push(['reply', rng.random() < 0.9])
-                elif scenario == 'prio' and r < 0.96:
+                elif scenario == 'prio' and r < 0.93:
                     if rng.random() < 0.7:
-                        if sorted_prio:
+                        if prio_mode == 'sorted':
                             last_prio[0] += rng.choice([0, 0, 1, 5])
                             pr = last_prio[0]
+                        elif prio_mode == 'dec2':
+                            # the second entry below the first (the heap array is still in priority order), then upwards
+                            nadd = len(sh.subs)
+                            if nadd == 0:
+                                last_prio[0] = rng.choice([3, 5, 9])
+                                pr = last_prio[0]
+                            elif nadd == 1:
+                                pr = rng.randrange(0, last_prio[0])
+                            else:
+                                last_prio[0] += rng.choice([0, 1, 5])
+                                pr = last_prio[0]
                         else:
                             pr = rng.choice([0, 1, 2, 3, 5, 9])
                         push(['prioadd', rng.randrange(0, 4), pr])
                     else:
                         push(['priorm', rng.randrange(0, 4)])
-                elif r < 0.90:
+                elif r < 0.90 or (scenario == 'prio' and r < 0.97):
                     a = rng.choice([None, ['custom', rng.randrange(0, 3)], 'prio',
                                     list(sh.inst) if isinstance(sh.inst, tuple) else sh.inst if sh.inst == 'prio' else None])
                     push(['setatt', a])
@@ -800,7 +822,7 @@ class P(core.Prop):
         f = analyse(case, obs)
         sc = case.get('scenario', 'corpus')
         if sc == 'via':
-            return 'via/conns=%d/matched=%d/unrelated=%d' % (min(f['connects'], 3), min(f['matched'], 2), min(f['unrelated'], 2))
+            return 'via/conns=%d/matched=%d/gone=%d/unrelated=%d' % (min(f['connects'], 3), min(f['matched'], 2), min(f['gone'], 1), min(f['unrelated'], 2))
         return '%s/decisions=%d/later=%d' % (sc, min(f['decisions'], 3), min(f['later'], 2))
 
     def nontrivial(self, case, obs):
@@ -820,11 +842,7 @@ class P(core.Prop):
             if op[0] == 'stream' and len(op[7]) > 1:
                 yield dict(case, ops=body[:i] + [op[:7] + [op[7][:-1]]] + body[i + 1:] + [['flush']])
 
-    finding_preds = {
-        'via_stream_circuit_gone': lambda c, o: analyse(c, o)['f1'],
-        'target_contains_exit': lambda c, o: analyse(c, o)['f2'],
-        'priority_heap_order': lambda c, o: analyse(c, o)['f3'],
-    }
+    finding_preds = {}
 
     # ------------------------------------------------------------------ Coq terms
     @staticmethod
